@@ -81,7 +81,8 @@ def run(args):
     rnd = random.Random(C.seed())
     rep.cov["rule"] = ("(1) the analyzer's member table (ast.Type.Fields) extracted for 14 type kinds vs the member sets of "
                        "both runtimes; (2) every offered member called with boundary arguments on boundary receivers in "
-                       "both runtimes: no panic, result conforms to the advertised type; (3) the cases TLC enumerates from "
+                       "both runtimes: no panic, result conforms to the advertised type; (2b) objects with a field named like a member "
+                       "(literal, cast from JSON, annotated parameter): where accepted, the field is read, written and shown; (3) the cases TLC enumerates from "
                        "HmsMembers (list/option/range/int/string members and indexing with indices -n-1..n+1) with the "
                        "specified result and receiver; non-trivial = distinct (receiver, member, arguments)")
     pool = C.Pool(C.build_worker())
@@ -133,6 +134,39 @@ def run(args):
                 pass                      # answering with an interrupt is allowed
             elif g.get("conforms") is False:
                 rep.fail(dict(feat, kind="result-of-wrong-type"), {"recv": recv, "args": combo, "advertised": ret, "got": g.get("res")})
+    # ---- (2b) fields named like members: where the analyzer accepts such a field, it is the field - on both runtimes,
+    # read, written and displayed - and not the builtin of that name
+    names = sorted(set(m for t in tables.values() for m in t) | {"get", "set", "len", "push", "unwrap", "start"})
+    freqs, fmeta = [], []
+    for nm in names:
+        srcs = {
+            "literal": "fn main() { let o = new { %s: 41 }; println(o.%s + 1); o.%s = 5; o.%s += 2; println(o.%s); println(o); }\n" % (nm, nm, nm, nm, nm),
+            "cast": "type K = { %s: int };\nfn main() { let v = \"{\\\"%s\\\": 7}\".parse_json() as K; println(v.%s + 1); v.%s = 2; println(v.%s, v); }\n" % (nm, nm, nm, nm, nm),
+            "annotated": "fn show(o: { %s: str, other: int }) -> str { o.%s + \"!\" }\nfn main() { println(show(new { %s: \"f\", other: 1 })); }\n" % (nm, nm, nm),
+        }
+        for how, src in srcs.items():
+            for b in ("vm", "tree"):
+                freqs.append({"op": "run", "id": len(freqs), "a": {"modules": {"main": src}, "entry": "main", "backend": b, "timeout_ms": 8000}})
+                fmeta.append((nm, how, b, src))
+    want = {"literal": "42\n7\n{\n    %s: 7\n}\n", "cast": "8\n2 {\n    %s: 2\n}\n", "annotated": "f!\n"}
+    naccepted = 0
+    for (nm, how, b, src), r in zip(fmeta, pool.map(freqs, timeout=30)):
+        rep.count()
+        rep.nontrivial(("field-name", nm, how, b))
+        feat = {"family": "field-named-like-member", "lib": b, "how": how, "member": nm}
+        if "crash" in r or "hang" in r:
+            from .sem import panic_class
+            rep.fail(dict(feat, kind="hostcrash" if "crash" in r else "hang", panic=panic_class((r.get("crash") or {}).get("stderr", ""))),
+                     {"program": src, "real": str(r)[:1200]})
+            continue
+        rr = r["r"]
+        if not rr["accepted"]:
+            continue                  # (the analyzer may refuse the name; then there is nothing to run)
+        naccepted += 1
+        exp = want[how] % nm if "%s" in want[how] else want[how]
+        if rr["out"] != exp or (rr.get("outcome") or {}).get("kind") != "done":
+            rep.fail(dict(feat, kind="field-shadowed-by-member"), {"program": src, "want": exp, "got": rr["out"], "outcome": rr.get("outcome")})
+    rep.notes["field_named_like_member_programs_accepted"] = naccepted
     # ---- (3) specified behaviour
     r = C.run_tlc("HmsMembers", "SPECIFICATION Spec\nINVARIANTS LenLaws Export\nCHECK_DEADLOCK FALSE\n", timeout=600)
     C.tlc_must_pass(r, "HmsMembers")
